@@ -74,16 +74,7 @@ def check_apply(s, n, before, vbefore, sigma_text, lo, hi, top):
     return None
 
 
-def h_apply(n: int, k: int, s1: int, r1: int, s2: int, r2: int, t2: bool,
-            so: int, c: Optional[int], d: Optional[int], top: bool, sigma_n: int = 4, op_sigma=None):
-    sigma = SIGMA[:sigma_n]
-    s = AnsiString(TEXT[:n])
-    if k >= 1:
-        if b1_step(s, n, s1, r1, True, sigma) is None:
-            return None
-    if k >= 2:
-        if b1_step(s, n, s2, r2, t2, sigma) is None:
-            return None
+def _core(s, n, sigma, op_sigma, so, c, d, top):
     st = choose(so, [sigma[j] for j in op_sigma] if op_sigma else sigma)
     if st is None:
         return None
@@ -112,6 +103,34 @@ def h_apply(n: int, k: int, s1: int, r1: int, s2: int, r2: int, t2: bool,
     return True
 
 
+def h_apply(n: int, k: int, s1: int, r1: int, s2: int, r2: int, t2: bool,
+            so: int, c: Optional[int], d: Optional[int], top: bool, sigma_n: int = 4, op_sigma=None):
+    sigma = SIGMA[:sigma_n]
+    s = AnsiString(TEXT[:n])
+    if k >= 1:
+        if b1_step(s, n, s1, r1, True, sigma) is None:
+            return None
+    if k >= 2:
+        if b1_step(s, n, s2, r2, t2, sigma) is None:
+            return None
+    return _core(s, n, sigma, op_sigma, so, c, d, top)
+
+
+def h_apply3(n: int, s1: int, r1: int, s2: int, r2: int, s3: int, r3: int, so: int, c: int, d: int, top: bool,
+             sig=(0, 1, 2), op_sigma=(4,)):
+    """Three builder steps (two settings carried over + one starting at the range start is the smallest such receiver)."""
+    sigma = SIGMA[:5]
+    sub = [sigma[j] for j in sig]
+    s = AnsiString(TEXT[:n])
+    if b1_step(s, n, s1, r1, True, sub) is None:
+        return None
+    if b1_step(s, n, s2, r2, True, sub) is None:
+        return None
+    if b1_step(s, n, s3, r3, True, sub) is None:
+        return None
+    return _core(s, n, sigma, op_sigma, so, c, d, top)
+
+
 def h_empty_settings(n: int, s1: int, r1: int, which: int, c: int, d: int, top: bool):
     """An empty settings list / empty string / ';' is a no-op."""
     s = AnsiString(TEXT[:n])
@@ -129,28 +148,56 @@ def h_empty_settings(n: int, s1: int, r1: int, which: int, c: int, d: int, top: 
     return True
 
 
-def h_multi(n: int, s1: int, r1: int, c: int, d: int, top: bool):
-    """A list of two settings: both are gained, in order."""
+MULTI = ((['underline', 'italic'], ['4', '3']), (['bold', 'red'], ['1', '31']), (('blue', ['faint']), ['34', '2']))
+
+
+def h_multi(n: int, s1: int, r1: int, c: int, d: int, top: bool, which: int):
+    """A list of two settings: both are gained, in order, with the documented precedence against what is there."""
     s = AnsiString(TEXT[:n])
     if b1_step(s, n, s1, r1, True) is None:
         return None
+    mw = choose(which, MULTI)
+    if mw is None:
+        return None
+    arg, texts = mw
     before = S(s, n)
     lo, hi = norm_slice(c, d, n)
-    s.apply_formatting(['underline', 'italic'], c, d, topmost=bool(top))
+    s.apply_formatting(arg, c, d, topmost=bool(top))
     after = S(s, n)
+    red_new = term.red(texts)
     for i in range(n):
-        exp = before[i] + ['4', '3'] if lo <= i < hi else before[i]
+        exp = before[i] + texts if lo <= i < hi else before[i]
         if sorted(after[i]) != sorted(exp):
             return ('multi-multiset', i, exp, after[i])
-        if not term.same(after[i], exp):
-            return ('multi-order', i, exp, after[i])
+        if not (lo <= i < hi):
+            if not term.same(after[i], before[i]):
+                return ('multi-outside', i, before[i], after[i])
+            continue
+        # the two new settings keep their order among themselves
+        if [t for t in after[i] if t in texts and t not in before[i]] not in (texts, [t for t in texts if t not in before[i]]):
+            return ('multi-order', i, after[i])
+        ra, rb = term.red(after[i]), term.red(before[i])
+        touched = set(term.group_of(t) for t in before[i])
+        if not top:
+            for g in term.GROUPS:
+                if g in touched:
+                    if ra.get(g) != rb.get(g):
+                        return ('multi-not-topmost-shadowed', i, before[i], after[i])
+                elif ra.get(g) != red_new.get(g):
+                    return ('multi-not-topmost-missing', i, before[i], after[i])
+            if touched & set(red_new):
+                cover('multi-conflict')
+        elif i == lo:
+            for g, v in red_new.items():
+                if ra.get(g) != v:
+                    return ('multi-topmost-not-on-top', i, before[i], after[i])
     if lo < hi:
         cover('nonempty')
     return True
 
 
 BOUNDS = {
-    'quick': 'text length n<=4 (1 builder step) / n<=2 (2 builder steps); builder settings from a 4-setting alphabet '
+    'quick': 'text length n<=3 (1 builder step) / n=2 (2 builder steps) / n=3 (3 builder steps, first on the whole text, new setting underline); two-setting lists on 1-step receivers; builder settings from a 4-setting alphabet '
              '(red, blue, bold, no_bold_faint) on all canonical ranges; start/end: ALL integers and None; topmost both',
     'thorough': 'n<=4 (1 step, 8-setting alphabet), n<=3 (2 steps, 4-setting alphabet); start/end ALL integers and None',
 }
@@ -176,9 +223,13 @@ def obligations(tier):
                               need=('nonempty',),
                               budget=400, bounds='n=2, 2 builder steps, first setting #%d on range #%d' % (s1, r1),
                               kinds=KINDS))
+        for s1 in range(3):
+            obs.append(Ob('apply/b3/n3/s%d' % s1, h_apply3, dict(n=3, s1=s1, r1=2), need=('nonempty',), budget=900,
+                          bounds='n=3, 3 builder steps over (red, blue, bold), first on the whole text; new setting underline', kinds=KINDS))
         obs.append(Ob('empty-settings/n2', h_empty_settings, dict(n=2), need=('empty-settings',), budget=200,
                       bounds='n=2', kinds=KINDS))
-        obs.append(Ob('multi/n2', h_multi, dict(n=2), need=('nonempty',), budget=200, bounds='n=2', kinds=KINDS))
+        obs.append(Ob('multi/n2', h_multi, dict(n=2), need=('nonempty', 'multi-conflict'), budget=600, bounds='n=2, 3 two-setting lists', kinds=KINDS))
+        obs.append(Ob('multi/n3', h_multi, dict(n=3), need=('nonempty', 'multi-conflict'), budget=900, bounds='n=3, 3 two-setting lists', kinds=KINDS))
     else:
         for n in (1, 2, 3, 4):
             for s1 in range(8):
@@ -191,9 +242,13 @@ def obligations(tier):
                 obs.append(Ob('apply/b2/n3/s%d/r%d' % (s1, r1), h_apply, dict(n=3, k=2, s1=s1, r1=r1),
                               need=('nonempty',), budget=2400,
                               bounds='n=3, 2 builder steps, first setting #%d on range #%d' % (s1, r1), kinds=KINDS))
+        for s1 in range(3):
+            for r1 in range(6):
+                obs.append(Ob('apply/b3/n3/s%d/r%d' % (s1, r1), h_apply3, dict(n=3, s1=s1, r1=r1, op_sigma=(0, 4)), need=('nonempty',), budget=3000,
+                              bounds='n=3, 3 builder steps over (red, blue, bold); new setting red / underline', kinds=KINDS))
         for n in (2, 3):
             obs.append(Ob('empty-settings/n%d' % n, h_empty_settings, dict(n=n), need=('empty-settings',),
                           budget=600, bounds='n=%d' % n, kinds=KINDS))
-            obs.append(Ob('multi/n%d' % n, h_multi, dict(n=n), need=('nonempty',), budget=600,
+            obs.append(Ob('multi/n%d' % n, h_multi, dict(n=n), need=('nonempty', 'multi-conflict'), budget=1500,
                           bounds='n=%d' % n, kinds=KINDS))
     return obs
